@@ -890,7 +890,7 @@ fn main() {
         &ctx,
         rep,
         "case = one generated segment (plans: small all-types, df-boundary, big sparse, heavy tf/positions, long terms, json long tokens) written by the real IndexWriter and read back per field; an evaluation = one (segment, field) read-back: term dictionary (num_terms, stream order, keys vs public Term constructors, TermInfo), total_num_tokens, field norms, and for the selected terms doc_freq + postings under Basic/WithFreqs/WithFreqsAndPositions read by scan, by seek/advance programs, by the block cursor (scan, seek, rank, reset). Non-trivial = the field has a posting list of >= 128 documents or records positions. Distinct = field configuration x df class x tf class x log2(#terms) x log2(#docs).",
-        ctx.scale(50, 600),
+        ctx.scale(50, 800),
         &[
             "text is generated as words joined by single spaces; the default/raw/whitespace tokenizers are modelled by their documented rules (split, RemoveLongFilter(40), MAX_TOKEN_LEN)",
             "one indexing thread, NoMergePolicy and one commit give exactly one segment whose doc ids are the insertion order; cases where the memory budget cut the segment are skipped and counted",
